@@ -745,8 +745,26 @@ func Roots(v ssa.Value, deep bool) []ssa.Value {
 			}
 		case *ssa.Extract:
 			out = append(out, x) // keep (tuple, index); callers inspect x.Tuple
+		case *ssa.Field:
+			if fv := newTypeField(x); fv != nil {
+				if sts := curProg.FieldStores(fv); len(sts) > 0 {
+					for _, sv := range sts {
+						walk(sv)
+					}
+					return
+				}
+			}
+			out = append(out, v)
 		case *ssa.UnOp:
 			if x.Op == token.MUL {
+				if fv := newTypeField(x); fv != nil {
+					if sts := curProg.FieldStores(fv); len(sts) > 0 {
+						for _, sv := range sts {
+							walk(sv)
+						}
+						return
+					}
+				}
 				if a, ok := x.X.(*ssa.Alloc); ok {
 					st, uninit := ReachingStores(x, a)
 					if len(st) == 0 {
@@ -1303,7 +1321,24 @@ func SliceAny(v ssa.Value, pred func(ssa.Value) bool) bool {
 			}
 		case *ssa.BinOp:
 			return walk(x.X) || walk(x.Y)
+		case *ssa.Field:
+			if fv := newTypeField(x); fv != nil {
+				for _, sv := range curProg.FieldStores(fv) {
+					if walk(sv) {
+						return true
+					}
+				}
+			}
+			return false
 		case *ssa.UnOp:
+			if fv := newTypeField(x); fv != nil && x.Op == token.MUL {
+				for _, sv := range curProg.FieldStores(fv) {
+					if walk(sv) {
+						return true
+					}
+				}
+				return false
+			}
 			if x.Op == token.MUL {
 				for _, u := range Unload(x) {
 					if u != v && walk(u) {
